@@ -20,6 +20,9 @@ func genC01(e *emitter, tier string, seed int64) {
 		g := newPG(rng)
 		g.allowExit = true
 		g.illTyped = 5
+		if i%3 == 0 {
+			g.locals = []string{"u", "v"}
+		}
 		g.maxDepth = 1 + rng.Intn(3)
 		src := g.program(1 + rng.Intn(5))
 		out := runV1(runCase{Scripts: []scriptSrc{{"main.p", src}}, Entry: "main.p", Point: stdPoint(rng), HasSig: true, SigK: 3000})
@@ -43,6 +46,9 @@ func genC03(e *emitter, tier string, seed int64) {
 	for i := 0; i < N; i++ {
 		g := newPG(rng)
 		g.allowBuilt = false
+		if i%2 == 0 {
+			g.locals = []string{"u", "v", "w"}
+		}
 		g.maxDepth = 2 + rng.Intn(2)
 		src := g.program(1 + rng.Intn(4))
 		out := runV1(runCase{Scripts: []scriptSrc{{"main.p", src}}, Entry: "main.p", Point: stdPoint(rng), HasSig: true, SigK: 3000})
